@@ -125,7 +125,7 @@ def axiom_audit(module, theorems):
 def harness_build(with_bin=False):
     """cargo build of the harness against /repo's current working tree with the hook cfg on"""
     with Lock("cargo"):
-        env = {"RUSTFLAGS": "--cfg " + GUARD, "CARGO_NET_OFFLINE": "true"}
+        env = {"RUSTFLAGS": "--cfg " + GUARD, "CARGO_NET_OFFLINE": "true", "CARGO_TARGET_DIR": os.path.join(CACHE, "harness-target")}
         rc, out = sh(["cargo", "build", "--profile", "verif"], cwd=HARNESS, env=env, timeout=3600)
         if rc != 0:
             return False, out
@@ -229,7 +229,7 @@ def run_model(obs_lines, jobs=None):
     return res
 
 class Case:
-    __slots__ = ("line", "obs", "agree", "fails", "model", "tag")
+    __slots__ = ("line", "obs", "agree", "fails", "model", "tag", "result")
     def __init__(self, line, obs, answer, tag=None):
         self.line = line; self.obs = obs; self.tag = tag
         parts = answer.split(" ", 2)
